@@ -247,6 +247,13 @@ func (a *AsyncAdapter) Close() error {
 	_ = a.ioc.UnsetReadWrite(&a.slot)
 	a.ioc.Deregister(&a.slot)
 
+	// The descriptor belongs to the adapted object (for example a net.Conn). If it can be closed, close it through
+	// that object: closing the raw descriptor behind its back makes it close the same number a second time later
+	// (explicitly or from its finalizer), when the kernel may already have given the number to somebody else.
+	if closer, ok := a.rw.(io.Closer); ok {
+		return closer.Close()
+	}
+
 	return syscall.Close(a.slot.Fd)
 }
 
